@@ -23,6 +23,9 @@ type Promise struct {
 	cutParent *Promise
 	repeat    bool
 	recover   func(error) *Promise
+
+	// exited is the catch promise whose goal has exited when the execution reaches this promise.
+	exited *Promise
 }
 
 // Delay delays an execution of k.
@@ -134,6 +137,15 @@ func panicError(r interface{}) error {
 
 type promiseStack []*Promise
 
+func inactive(exited []*Promise, p *Promise) bool {
+	for _, e := range exited {
+		if e == p {
+			return true
+		}
+	}
+	return false
+}
+
 func (s *promiseStack) pop() *Promise {
 	var p *Promise
 	p, *s, (*s)[len(*s)-1] = (*s)[len(*s)-1], (*s)[:len(*s)-1], nil
@@ -150,9 +162,14 @@ func (s *promiseStack) popUntil(p *Promise) {
 
 func (s *promiseStack) recover(err error) error {
 	// look for an ancestor promise with a recovering function that is applicable to the error.
+	var exited []*Promise
 	for len(*s) > 0 {
 		pop := s.pop()
-		if pop.recover == nil {
+		if pop.exited != nil {
+			// The error occurred after the goal of that catch/3 had exited. It's no longer active.
+			exited = append(exited, pop.exited)
+		}
+		if pop.recover == nil || inactive(exited, pop) {
 			continue
 		}
 		if q := pop.recover(err); q != nil {
